@@ -115,7 +115,7 @@ def string_lit(s, rng=None):
     return '"' + s + '"'
 
 
-COMMENTS = ["/* c */", "/* a : 'x' ; */", "/**/", "// line comment\n", "//\n", "/* multi\nline */", "/* \"unterminated string */", "// 'q\n"]
+COMMENTS = ["/** Tokens **/", "/*** x ***/", "/* * */", "/* a*b **/", "/* c */", "/* a : 'x' ; */", "/**/", "// line comment\n", "//\n", "/* multi\nline */", "/* \"unterminated string */", "// 'q\n"]
 
 
 def relayout(text, rng):
@@ -329,6 +329,14 @@ def rand_syn(rng, terms, nnt=None, max_alts=3, max_len=3, p_empty=0.2, p_error=0
                     continue
                 bd[pos] = (0, nts[i])
             syn[k] = (hd, bd, act, aid2)
+    if productive and rng.random() < 0.25 and terms:
+        # a nullable, directly left-recursive list that FOLLOWS another symbol: `S0 : N x L ; L : L y | empty`
+        x, y = rng.choice(terms), rng.choice(terms)
+        lst = "L9"
+        first = syn[0]
+        syn[0] = (first[0], list(first[1]) + [(0, lst)] + ([x] if rng.random() < 0.5 else []), first[2] if first[2] in (0, 1, 5, 6) else 0, first[3] if first[2] in (0, 1, 5, 6) else 0)
+        syn.append((lst, [(0, lst), y], 0, 0))
+        syn.append((lst, [(1, "empty")], 0, 0))
     if len(syn) > 2 and rng.random() < 0.2:
         # declare a non-terminal in two separate places: `A : x ; B : y ; A : z ;`
         k = rng.randrange(1, len(syn))
